@@ -133,8 +133,12 @@ ADS_KEYS = ["formula", "molar_mass", "family", "t_critical", "c0", "c1"]  # c0/c
 META_KEYS = ["user", "comment", "lab", "num", "flag", "machine"]
 
 
-def _props(keys, max_size, values=_val):
-    return st.dictionaries(st.sampled_from(keys), values, max_size=max_size)
+@st.composite
+def _props(draw, keys, max_size, values=_val):
+    # the size is drawn first and 0 is not the first choice: hypothesis favours the first element, and an item
+    # without properties makes a short operation
+    n = draw(st.sampled_from([k for k in (2, 1, 3, 0, 4, 5) if k <= max_size]))
+    return draw(st.dictionaries(st.sampled_from(keys), values, min_size=n, max_size=n))
 
 
 def _ads_props():
@@ -152,7 +156,7 @@ def _type_row(prefix):
 @st.composite
 def _iso(draw, index, n_mat, n_ads):
     """An isotherm descriptor; distinct `index` => distinct temperature => distinct iso_id."""
-    kind = draw(st.sampled_from(["base", "point", "model"]))
+    kind = draw(st.sampled_from(["point", "model", "base"]))
     d = {"kind": kind, "T": 70.0 + 10 * index + draw(st.integers(0, 9)),
          "meta": draw(_props(META_KEYS, 3, st.one_of(_val, st.booleans())))}
     if n_mat is not None:
@@ -182,8 +186,8 @@ def _iso(draw, index, n_mat, n_ads):
 
 @st.composite
 def _prior(draw):
-    n_mat = draw(st.integers(0, 3))
-    n_ads = draw(st.integers(0, 2))
+    n_mat = draw(st.sampled_from([2, 1, 3, 0]))
+    n_ads = draw(st.sampled_from([1, 0, 2]))
     prior = {
         "materials": [{"name": f"m-{i}", "props": draw(_props(MAT_KEYS, 4))} for i in range(n_mat)],
         "adsorbates": [{"name": f"gas-{i}", "props": draw(_ads_props())} for i in range(n_ads)],
@@ -192,7 +196,7 @@ def _prior(draw):
                   for t in ("material", "adsorbate", "isotherm")},
     }
     if n_mat:
-        n_iso = draw(st.integers(0, 3))
+        n_iso = draw(st.sampled_from([1, 2, 0, 3]))
         prior["isotherms"] = [draw(_iso(i, n_mat, n_ads)) for i in range(n_iso)]
     return prior
 
@@ -208,7 +212,7 @@ def _iso_upload_op(draw, prior):
     n_mat, n_ads = len(prior["materials"]), len(prior["adsorbates"])
     iso = draw(_iso(9, None, None))
     mat_choices = ["new"] + (["prior"] if n_mat else [])
-    ads_choices = ["stock", "new"] + (["prior"] if n_ads else [])
+    ads_choices = ["new", "stock"] + (["prior"] if n_ads else [])
     mc, ac = draw(st.sampled_from(mat_choices)), draw(st.sampled_from(ads_choices))
     if mc == "new":
         iso["material"] = ["new", {"name": "n-mat", "props": draw(_props(MAT_KEYS, 4))}]
@@ -231,7 +235,7 @@ def strat_scenario(draw):
     ref_mats, ref_ads = _referenced(prior)
     free_mats = [i for i in range(n_mat) if i not in ref_mats]
     free_ads = [i for i in range(n_ads) if i not in ref_ads]
-    ops = ["mat_new", "ads_new", "type_new", "type_overwrite", "iso_upload", "iso_upload", "iso_upload"]
+    ops = ["iso_upload", "iso_upload", "iso_upload", "mat_new", "ads_new", "type_new", "type_overwrite"]
     if n_mat:
         ops += ["mat_overwrite", "mat_overwrite"]
     if free_mats:
@@ -348,6 +352,7 @@ class Env:
         self.reg0 = (list(MATERIAL_LIST), list(ADSORBATE_LIST))
         self.pre_bytes = F.read_db(path)
         self.pre_img, self.pre_problems = F.image(path)
+        self.ads_read = set()
 
     def ads_ref(self, ref):
         if ref[0] == "stock":
@@ -531,6 +536,8 @@ def summary(path, with_adsorbates):
 
 def check_retrievable(pre_sum, now_sum, targets, where):
     for cat, items in pre_sum.items():
+        if now_sum[cat] is None:  # reader already called on identical file content in this scenario
+            continue
         for key, val in items.items():
             if key in targets[cat]:
                 continue
@@ -688,8 +695,16 @@ def _one_fault(env, factory, kind, k, N, post_img, ref_same, ref_fresh, pre_sum,
     if problems:
         raise Violation(f"{where}: {problems}", tag="integrity")
     ctx.label(f"state_{state}:{'raised' if raised else kind}" + (":call_returned" if outcome == "ok" else ""))
-    # everything stored before is still returned by the readers
-    check_retrievable(pre_sum, summary(path, with_ads), targets, where)
+    # everything stored before is still returned by the readers (in the process state the failed call left). The 176
+    # shipped adsorbates dominate the cost of adsorbates_from_db, so that reader is called once per distinct file
+    # content of the scenario (rows identical including ids) and always when the content is new.
+    ads_now = with_ads and id(img) not in env.ads_read
+    if ads_now:
+        env.ads_read.add(id(img))
+    now = summary(path, ads_now)
+    if with_ads and not ads_now:
+        now["adsorbates"] = pre_sum["adsorbates"] if img is env.pre_img else None
+    check_retrievable(pre_sum, now, targets, where)
     # the same operation can be repeated
     if raised:
         again, err2 = _call(call)  # same process, same objects, registries as the failed call left them
